@@ -37,6 +37,7 @@ return ok, "compared"
 """
 
 STATE = """
+reset_singletons()
 S = {expr}
 OTHER = pick(({others}), oi)
 REGEX_GEN._alphabet["letters"], saved = SMALL_LETTERS, REGEX_GEN._alphabet["letters"]
